@@ -155,7 +155,7 @@ fn try_recv_res(r: Option<Result<Val, TryReceiveError>>) -> Vec<u64> {
 fn close_res(r: Option<futures_intrusive::channel::CloseStatus>) -> u64 {
     match r {
         None => R_PANIC,
-        Some(c) => rbool(c.is_newly_closed()),
+        Some(c) => close_code(c),
     }
 }
 
